@@ -35,6 +35,7 @@ def showVar : Var → String
 
 def showOp : BinOp → String
   | .shl => "<<" | .shr => ">>" | .and => "&" | .or => "|" | .add => "+" | .sub => "-" | .mul => "*" | .ne => "!=" | .lt => "<"
+  | .bxor => "^" | .eqq => "=="
 
 partial def showExpr (st : State) : Expr → String
   | .lit t n => s!"(lit {showITy t} {n})"
@@ -366,7 +367,7 @@ def leanVar : Var → String
 
 def leanOp : BinOp → String
   | .shl => ".shl" | .shr => ".shr" | .and => ".and" | .or => ".or" | .add => ".add" | .sub => ".sub" | .mul => ".mul"
-  | .ne => ".ne" | .lt => ".lt"
+  | .ne => ".ne" | .lt => ".lt" | .bxor => ".bxor" | .eqq => ".eqq"
 
 partial def leanExpr : Expr → String
   | .lit t n => s!"(.lit {leanITy t} {n})"
